@@ -477,10 +477,13 @@ def rule_PL(run: Run) -> RuleResult:
         if locks:
             n += 1
             ok_g = gs is not None and all(f"'{a}'" in ast.unparse(gs) for a in locks) and "self.__dict__" in ast.unparse(gs)
-            ok_s = ss is not None and all(any(isinstance(s, ast.Assign) and ast.unparse(s.targets[0]) == f"self.{a}" for s in ast.walk(ss)) for a in locks) \
+            ok_s = ss is not None and all(any(isinstance(s, ast.Assign) and ast.unparse(s.targets[0]) == f"self.{a}" and isinstance(s.value, ast.Call)
+                                              and ("Lock" in ast.unparse(s.value.func) or "_get_lock" in ast.unparse(s.value.func)) for s in ss.body) for a in locks) \
                 and ("self.__dict__.update(" in ast.unparse(ss))
             res.add(f"{c.qualname}:lock attribute(s) {sorted(locks)} replaced in __getstate__", ok_g, c.module.relpath, gs.lineno if gs else c.node.lineno, "", nec)
-            res.add(f"{c.qualname}:lock attribute(s) {sorted(locks)} re-created in __setstate__, other state restored", ok_s, c.module.relpath, ss.lineno if ss else c.node.lineno, "", nec)
+            res.add(f"{c.qualname}:lock attribute(s) {sorted(locks)} re-created in __setstate__, other state restored", ok_s, c.module.relpath, ss.lineno if ss else c.node.lineno,
+                    "unconditional `self.<lock> = <new or registered lock>` at the top level of __setstate__" if ok_s else
+                    "__setstate__ does not unconditionally assign a lock: an object unpickled in a fresh process has no lock and register() fails", nec)
         elif gs is not None or ss is not None:
             ok = gs is not None and ss is not None
             res.add(f"{c.qualname}:__getstate__ and __setstate__ come in pairs", ok, c.module.relpath, c.node.lineno, "", nec)
@@ -549,4 +552,100 @@ def rule_GA(run: Run) -> RuleResult:
                 "guarded" if guarded else f"reads instance state (`{ast.unparse(stmts[0])[:50]}`…) for any name, including __setstate__", nec)
     if n == 0:
         res.add("labrea:no class defines __getattr__", True, "", 0, "", nec, trivial=True)
+    return res
+
+
+# ------------------------------------------------------------------ R-GS
+SHARED_TABLES = {
+    "labrea.runtime._RUNTIMES": "thread -> runtime table, guarded by runtime.lock (R-LS, R-TI)",
+    "labrea.runtime._DEFAULT_HANDLERS": "default handler registry, written under runtime.lock (R-LS)",
+    "labrea.overload._LOCKS": "per-object lock registry, guarded by _MODULE_LOCK (R-LS)",
+}
+_MUTATORS = {"add", "discard", "remove", "append", "extend", "insert", "pop", "popitem", "clear", "update", "setdefault", "__setitem__", "__delitem__", "sort"}
+
+
+def rule_GS(run: Run) -> RuleResult:
+    """No hidden module-level mutable state: outcomes depend on options only."""
+    res = RuleResult("R-GS")
+    repo = run.repo
+    nec = ("an operation that records something in module-level state makes later outcomes depend on what was evaluated "
+           "(or failed) earlier: a failed keys() that leaves an entry behind changes the keys reported afterwards")
+    n = 0
+    for m, cls, fn, q in iter_functions(repo):
+        if m.name.startswith("labrea.mypy"):
+            continue
+        glob_decl = {n2 for x in ast.walk(fn) if isinstance(x, (ast.Global, ast.Nonlocal)) for n2 in x.names}
+        local_names = {a.arg for a in fn.args.posonlyargs + fn.args.args + fn.args.kwonlyargs}
+        if fn.args.vararg:
+            local_names.add(fn.args.vararg.arg)
+        if fn.args.kwarg:
+            local_names.add(fn.args.kwarg.arg)
+        for x in astu.walk_no_nested(fn):
+            if isinstance(x, (ast.Assign, ast.AnnAssign, ast.AugAssign, ast.For, ast.comprehension, ast.With)):
+                tg = []
+                if isinstance(x, ast.Assign):
+                    tg = x.targets
+                elif isinstance(x, (ast.AnnAssign, ast.AugAssign)):
+                    tg = [x.target]
+                elif isinstance(x, (ast.For, ast.comprehension)):
+                    tg = [x.target]
+                for t in tg:
+                    for y in ast.walk(t):
+                        if isinstance(y, ast.Name) and isinstance(y.ctx, ast.Store) and y.id not in glob_decl:
+                            local_names.add(y.id)
+        def is_module_var(name: str) -> bool:
+            if name in local_names and name not in glob_decl:
+                return False
+            r = m.names.get(name)
+            return r is not None and r[0] == "var"
+        for x in astu.walk_no_nested(fn):
+            hit = None
+            if isinstance(x, ast.Call) and isinstance(x.func, ast.Attribute) and x.func.attr in _MUTATORS and isinstance(x.func.value, ast.Name) and is_module_var(x.func.value.id):
+                hit = (x.func.value.id, f"{x.func.value.id}.{x.func.attr}(…)")
+            if isinstance(x, (ast.Assign, ast.AugAssign, ast.Delete)):
+                tgts = x.targets if isinstance(x, (ast.Assign, ast.Delete)) else [x.target]
+                for t in tgts:
+                    if isinstance(t, ast.Subscript) and isinstance(t.value, ast.Name) and is_module_var(t.value.id):
+                        hit = (t.value.id, f"{t.value.id}[…] = …")
+                    if isinstance(t, ast.Name) and t.id in glob_decl:
+                        hit = (t.id, f"global {t.id} = …")
+            if hit:
+                n += 1
+                full = f"{m.name}.{hit[0]}"
+                ok = full in SHARED_TABLES
+                res.add(f"{q}:mutates module-level {hit[0]}", ok, m.relpath, x.lineno,
+                        f"{hit[1]}" + (f" — registered shared table: {SHARED_TABLES[full]}" if ok else " — module-level mutable state that is not one of the guarded shared tables"), nec)
+    if n < 3:
+        raise AnalysisError(f"R-GS found only {n} writes to module-level state (the three guarded tables expected)")
+    dirty = {o.file for o in res.obligations if not o.ok}
+    for m in repo.modules.values():
+        if m.name.startswith("labrea.mypy"):
+            continue
+        res.add(f"{m.name}:no unregistered module-level mutable state", m.relpath not in dirty, m.relpath, 1,
+                "no function of this module mutates module-level state outside the guarded shared tables", nec)
+    return res
+
+
+# ------------------------------------------------------------------ R-SK
+def rule_SK(run: Run) -> RuleResult:
+    """Switch options are never part of a key set."""
+    res = RuleResult("R-SK")
+    repo = run.repo
+    nec = ("feature switches must not split cache entries: a switch option reported by keys() changes the fingerprint, so the same "
+           "evaluation with the switch present recomputes, logs and stores again (C16, C02)")
+    for cls in run.node_classes():
+        for op in ("keys",):
+            owner, fn = cls.find_method(op)
+            bad = []
+            for p in run.paths(cls, op):
+                for e in p.events:
+                    tgt = e.target
+                    if e.kind in ("op", "call") and (e.op in ("keys", "explain") or e.text in ("keys", "explain", "fingerprint")) and isinstance(tgt, Sym) and tgt.head == "global":
+                        bad.append((e.line, tgt.text))
+                    if e.kind == "op" and e.op in ("keys",) and isinstance(tgt, New) and tgt.cls.name == "Option":
+                        k = tgt.attrs.get("key")
+                        if isinstance(k, Const) and isinstance(k.v, str) and k.v.startswith("LABREA."):
+                            bad.append((e.line, k.v))
+            res.add(f"{cls.qualname}.{op}:no feature-switch option in the key set", not bad, owner.module.relpath, fn.lineno,
+                    "no switch keyed" if not bad else f"line {bad[0][0]}: keys of switch {bad[0][1]} are reported", nec)
     return res
